@@ -183,3 +183,38 @@ func H_C20_parsefile() {
 	verifAssert(hErrLine(err) == hLineOf(d.s, off), "ParseFile cites the line counted from the start of the file")
 	verifReach("end")
 }
+
+// newline characters inside string literals and keys (raw, or directly after a backslash) that precede the
+// error are newline characters of the input like any other: they count
+func hStrBody() string {
+	switch nondetIntRange(0, 3) {
+	case 0:
+		return "x"
+	case 1:
+		return "\n"
+	case 2:
+		c := nondetByte() // the character after a backslash: a raw line break, or an ordinary escape letter
+		verifAssume(verifOr(c == '\n', verifOr(c == 'n', c == '\\')))
+		return "\\" + string([]byte{c})
+	default:
+		return "a\n\nb"
+	}
+}
+
+func H_C20_newlines_in_strings() {
+	var d hDoc
+	isList := nondetIntRange(0, 1) == 1
+	if isList {
+		d.add("[", `"`, hStrBody(), `"`, ",", hWS())
+		if nondetIntRange(0, 1) == 1 {
+			d.add("{", `"`, hStrBody(), `"`, ":", "1", "}", ",")
+		}
+	} else {
+		d.add("{", `"`, hStrBody(), `"`, ":", `"`, hStrBody(), `"`, ",", hWS(), `"z"`, ":")
+	}
+	d.add(hBadLiteral())
+	off := len(d.s)
+	d.add(",", "\n", "1")
+	hCheckLine(isList, d.s, off, "newline characters inside string literals before the error count towards the cited line")
+	verifReach("end")
+}
